@@ -65,7 +65,8 @@ func refDelayMs(base, factor, cap int, n int) *big.Int {
 // c19System: the delays as an application sees them: gaps between refused
 // reconnection attempts of a StreamManager, over several reconnection loops.
 type c19System struct {
-	Loops []int `json:"refusals_per_loop"`
+	Loops []int    `json:"refusals_per_loop"`
+	Kinds []string `json:"loss_kind_per_loop"`
 }
 
 func runC19System(e *Engine, g G, o RunOpt) RunInfo {
@@ -73,6 +74,7 @@ func runC19System(e *Engine, g G, o RunOpt) RunInfo {
 	nl := g.Range("loops", 1, 3)
 	for i := 0; i < nl; i++ {
 		sc.Loops = append(sc.Loops, g.Range("refusals", 1, 18))
+		sc.Kinds = append(sc.Kinds, []string{"cut", "cut", "stream-error"}[g.N("loss-kind", 3)])
 	}
 	e.Horizon = 1 << 62
 	var plan []Dial
@@ -116,8 +118,16 @@ func runC19System(e *Engine, g G, o RunOpt) RunInfo {
 		for li := range sc.Loops {
 			e.Sleep(time.Second)
 			cur := srv.Conns[len(srv.Conns)-1]
-			cur.Pipe.Cli.CutAt = cur.End.TotalWritten
-			cur.Pipe.Cli.CutErr = io.EOF
+			if sc.Kinds[li] == "stream-error" {
+				// the server ends the stream itself: the series of attempts that follows is a new one too
+				cur.Send("<stream:error><system-shutdown xmlns='" + nsStreams + "'/></stream:error></stream:stream>")
+				e.Yield("srv.closing")
+				cur.Close()
+				e.Fault("stream.error")
+			} else {
+				cur.Pipe.Cli.CutAt = cur.End.TotalWritten
+				cur.Pipe.Cli.CutErr = io.EOF
+			}
 			if e.WaitUntilFor("back", 2*time.Hour, func() bool { return nEst() == li+2 }) {
 				e.Violate("C19", "system:not-reconnected", "loop %d: no session after %d refusals within 2 h", li, sc.Loops[li])
 				break
